@@ -194,7 +194,7 @@ def r2_get_set_symmetry(R) -> None:
     s = Fn(R, f'{VC}.__setitem__')
     keyg, keys_ = g.fi.params()[1], s.fi.params()[1]
     val = s.fi.params()[2]
-    seg, ses = SymExec(g.fi.node), SymExec(s.fi.node)
+    seg, ses = g.symexec(), s.symexec()
     # get: every `return <series>[...]`
     seen = {'slice': False, 'loc': False}
     series_g = {f'self.__getattr__({keyg}[0])', f"self.__dict__['_' + {keyg}[0]]"}
